@@ -1,4 +1,5 @@
 import AasVerif.Lemmas.CacheLog
+import AasVerif.Lemmas.CacheLive4
 import AasVerif.Gen.Cache
 /-!
 # C24 — the model cache survives crashes and concurrent runs
@@ -95,6 +96,23 @@ theorem tmp_ignored (hash : Nat → Nat) (valid : Nat → Bool) (hinj : ∀ a b,
   rcases h with h | h
   · exact hl _ h q (Or.inl rfl)
   · exact hl _ h q (Or.inr rfl)
+
+/-- The skeleton passes the second static checker: every file is there when it is opened / renamed,
+every handle open when used, the directory created before the tmp file, `exist_ok`/`missing_ok` set. -/
+theorem gen_live : LiveSkeleton Gen.Cache.loadModelOps := by
+  intro flag; cases flag <;> decide
+
+/-- **Survives concurrent runs**: a run into which no fault (exception / kill) was injected never
+raises, whatever the other runs do and wherever they crash: it is still running, or it has returned
+exactly the result of an uncached run. (No FileNotFoundError from a lost race, no unpickling error.) -/
+theorem no_spurious_crash (hash : Nat → Nat) (valid : Nat → Bool) (hinj : ∀ a b, hash a = hash b → a = b)
+    (sched : List Event) (i : Nat) (p : Proc)
+    (hp : (run (world hash valid) sched St.init).procs i = some p) (hf : p.faulted = false) :
+    p.mode = .running ∨ p.mode = .finished (uncached (world hash valid) p.text) := by
+  have h := run_LiveAll (world hash valid) hinj gen_safe gen_live sched St.init (WF_init _) (LiveAll_init _) i p hp
+  rcases h.alive hf with ⟨hm, _⟩ | hfin
+  · exact Or.inl hm
+  · exact Or.inr hfin
 
 /-- Non-vacuity: with `hash = id` two runs on the same text, the first killed inside its write
 section, the second running to completion: the entry is complete and the stray tmp file remains. -/
